@@ -54,10 +54,20 @@ def is_url_form(sel: bytes) -> bool:
     return re.match(rb"/?URL:.+://", sel) is not None
 
 
-def hostile_selectors(rng, model: sites.SiteModel, full: bool, n: int) -> typing.List[typing.Tuple[bytes, bool, str]]:
+def hostile_selectors(rng, model: sites.SiteModel, full: bool, n: int, outside_abs: bytes = b"/nonexistent"
+                      ) -> typing.List[typing.Tuple[bytes, bool, str]]:
     """(raw selector as sent, prequoted?, class)"""
     objs = model.docs(full) + model.menus(full)
     out = []
+    # shell syntax in the virtual argument of every script-like object, naming an absolute path outside the
+    # root (harmless while arguments reach the script as one argv element)
+    secret = outside_abs + b"/outside-secret.txt"
+    for o in objs:
+        if "exec" in o.tags or "pyg" in o.tags:
+            for sep in (b"?", b"|"):
+                for payload in (b"x;cat " + secret, b"$(cat " + secret + b")", b"`cat " + secret + b"`", b"x&&cat " + secret,
+                                b"x|cat " + secret, b"x\tcat<" + secret, b"-f " + secret, b"x;" + outside_abs + b"/evil.pyg"):
+                    out.append((o.selector + sep + payload, False, "shell-syntax-in-argument"))
     outside_targets = [b"etc/passwd", b"outside-secret.txt", b"SIBLING/secret.txt", b"evil.pyg", b"outside.mbox"]
     for _ in range(n):
         o = rng.choice(objs)
@@ -162,11 +172,7 @@ def outside_world(sc: Scratch, root: str, model: sites.SiteModel, which: str) ->
     return cwd
 
 
-def run_site(chk: Check, sc: Scratch, idx: int, nhostile: int) -> None:
-    rng = chk.subrng("site", idx)
-    base = sc.sub("w%d" % idx)
-    root = os.path.join(base, "root")
-    model = sites.gen_site(rng, sc.path, nfiles=8)
+def extend_model(model: sites.SiteModel, base: str, sc: Scratch) -> None:
     model.tree.file("page.html.tal", b"<html><body><p tal:content=\"selector\">x</p></body></html>")
     model.add(b"/page.html.tal", "doc", None, needs_full=True, tags=["tal"])
     # content that itself points upwards (no symlink involved): gophermap and link-file entries whose
@@ -179,7 +185,27 @@ def run_site(chk: Check, sc: Scratch, idx: int, nhostile: int) -> None:
     model.tree.file("climblinks/.Links", "Name=Up\nType=0\nPath=../../outside-secret.txt\n\nName=Up2\nType=0\nPath=./../../outside-secret.txt\n\n"
                     "Name=Abs\nType=0\nPath=/../outside-secret.txt\nHost=+\nPort=+\n\nName=Sib\nType=1\nPath=~/../../SIBLING\n")
     model.tree.file("climblinks/real.txt", "real\n")
+    # an executable the kernel cannot run by itself (no #! line)
+    model.tree.file("noshebang", "echo hello $1\n", mode=0o755)
+    model.add(b"/noshebang", "doc", None, needs_full=True, tags=["exec", "noshebang"])
+    # content whose selectors spell absolute paths that exist outside the root (a selector used as a path
+    # without the root in front would name the outside object)
+    mirror = os.fsencode(base).strip(b"/")
+    model.tree.file(mirror + b"/outside-secret.txt", "INSIDE document whose selector mirrors an outside path\n")
+    model.add(b"/" + mirror + b"/outside-secret.txt", "doc", None, tags=["mirror"])
+    model.tree.file(mirror + b"/SIBLING/inside.txt", "inside the mirrored sibling\n")
+    model.add(b"/" + mirror + b"/SIBLING", "menu", tags=["dir", "mirror"])
+    model.tree.file(mirror + b"/outside.mbox", trees.make_mbox(["INSIDE SUBJECT mirror"], sc.path))
+    model.add(b"/" + mirror + b"/outside.mbox", "menu", tags=["mail", "mirror"])
     model.add(b"/climblinks", "menu", tags=["dir", "climbing-content"])
+
+
+def run_site(chk: Check, sc: Scratch, idx: int, nhostile: int) -> None:
+    rng = chk.subrng("site", idx)
+    base = sc.sub("w%d" % idx)
+    root = os.path.join(base, "root")
+    model = sites.gen_site(rng, sc.path, nfiles=8)
+    extend_model(model, base, sc)
     model.tree.materialize(root)
     allowed = allowed_prefixes()
     helper_list = helpers()
@@ -199,7 +225,7 @@ def run_site(chk: Check, sc: Scratch, idx: int, nhostile: int) -> None:
                     requests.append(("object", *reqs.render(view, o.selector, q), view, o.selector))
                 if full and o.kind == "doc" and rng.random() < 0.3:
                     requests.append(("type-prefixed", *reqs.render("gopher", b"/0" + o.selector), "gopher", b"/0" + o.selector))
-            for raw, preq, cls in hostile_selectors(rng, model, full, nhostile):
+            for raw, preq, cls in hostile_selectors(rng, model, full, nhostile, os.fsencode(base)):
                 view = rng.choice(list(reqs.VIEWS))
                 if preq and reqs.VIEWS[view][0] in ("gopher", "gopherp"):
                     view = rng.choice(["http", "https", "wap", "gemini", "spartan"])
@@ -323,6 +349,7 @@ def strace_leg(chk: Check, sc: Scratch, nhostile: int) -> None:
     base = sc.sub("sys")
     root = os.path.join(base, "root")
     model = sites.gen_site(rng, sc.path, nfiles=8)
+    extend_model(model, base, sc)
     model.tree.materialize(root)
     cwd = outside_world(sc, root, model, "B")
     overrides = {("handlers.HandlerMultiplexer", "handlers"): driver.HANDLERS_FULL,
@@ -343,7 +370,7 @@ def strace_leg(chk: Check, sc: Scratch, nhostile: int) -> None:
                 if reqs.VIEWS[view][0] in ("gopher", "gopherp") and reqs.gopher_ambiguous(o.selector):
                     continue
                 requests.append(reqs.render(view, o.selector, b"needle" if "exec" in o.tags else None))
-        for raw, preq, cls in hostile_selectors(rng, model, True, nhostile):
+        for raw, preq, cls in hostile_selectors(rng, model, True, nhostile, os.fsencode(base)):
             view = rng.choice(["gopher", "gopherp+", "http", "wap", "gemini", "spartan", "gophers", "https"])
             if preq and reqs.VIEWS[view][0] in ("gopher", "gopherp"):
                 view = "http"
